@@ -131,11 +131,17 @@ Definition uses_relative : list string :=
   [""; "ftp"; "http"; "gopher"; "nntp"; "imap"; "wais"; "file"; "https"; "shttp"; "mms"; "prospero"; "rtsp"; "rtspu";
    "sftp"; "svn"; "svn+ssh"; "ws"; "wss"; "coap"; "coaps"; "coap+tcp"; "coaps+tcp"; "coap+ws"; "coaps+ws"]%string.
 Definition starts_slash (s : string) : bool := match s with String "/" _ => true | _ => false end.
+Definition uses_netloc : list string :=
+  [""; "ftp"; "http"; "gopher"; "nntp"; "telnet"; "imap"; "wais"; "file"; "mms"; "https"; "shttp"; "snews"; "prospero"; "rtsp"; "rtspu";
+   "rsync"; "svn"; "svn+ssh"; "sftp"; "nfs"; "git"; "git+ssh"; "ws"; "wss"; "itms-services";
+   "coap"; "coaps"; "coap+tcp"; "coaps+tcp"; "coap+ws"; "coaps+ws"]%string.
+Definition starts_2slash (s : string) : bool := match s with String "/" (String "/" _) => true | _ => false end.
 Definition urlunsplit (scheme netloc path : string) : string :=
-  let url := match netloc with
-             | EmptyString => path
-             | _ => "//" +++ netloc +++ (match path with EmptyString => path | _ => if starts_slash path then path else "/" +++ path end)
-             end in
+  let has_scheme := match scheme with EmptyString => false | _ => true end in
+  let has_netloc := match netloc with EmptyString => false | _ => true end in
+  let url := if has_netloc || (has_scheme && existsb (String.eqb scheme) uses_netloc && negb (starts_2slash path))
+             then "//" +++ netloc +++ (match path with EmptyString => path | _ => if starts_slash path then path else "/" +++ path end)
+             else path in
   match scheme with EmptyString => url | _ => scheme +++ ":" +++ url end.
 Definition nonempty (s : string) : bool := match s with EmptyString => false | _ => true end.
 (* segments[1:-1] = filter(None, segments[1:-1]) *)
